@@ -5,7 +5,7 @@ CONSTANTS
   Idx = {1, 2, 3, 4, 5, 6, 7}
   MaxT = 7
   TFull = 4
-  KFull = 6
+  KFull = 4
   Secrets = {0, 1, 2, 3, 4, 5, 6, 7}
   BadVals = {0, 1, 2, 3, 4, 5, 6, 7}
   DevSkipZeroShares = FALSE
